@@ -31,6 +31,10 @@ def pl(xs):
     return "[" + "; ".join("(%s, %s)" % (vf.cstr(a), vf.cstr(b)) for a, b in xs) + "]"
 
 
+# device keys the pack tables advertise with a demand item and the facade has never handled (= InventoryKeysP.known_unhandled_devices)
+KNOWN_UNHANDLED = {"L120", "Fb", "TvLift", "SpkrLift", "Valve", "SpeedVSP1", "SpeedVSP2", "SpeedVSP3", "SpeedVSP4", "SpeedVSP5"}
+
+
 def run(ctx):
     ctx.rule = ("synthetic wirings on shipped cfg/log pairs: every output item set (through the block) to a label drawn from its own label list - subsets of outputs wired, "
                 "the same device on several outputs, devices without a user demand, everything NA; the REAL _scan_outputs (async) and scan_outputs (threaded, under "
@@ -81,6 +85,17 @@ def run(ctx):
                     cand = [x for x in labels if x != "NA"]
                     w[o] = rng.choice(cand) if cand else labels[0]
             wirings.append(w)
+        # one wiring per advertised device that has a demand: that device alone, on the first output that offers a label for it
+        for d in l["devices"]:
+            if not any(("Ud" + d).upper() == u.upper() for u in l["demands"]) or d in KNOWN_UNHANDLED:
+                continue
+            for o in outs:
+                lab = [x for x in items[o]["items"] if x.startswith(d)]
+                if lab:
+                    w = {oo: ("NA" if "NA" in items[oo]["items"] else items[oo]["items"][0]) for oo in outs}
+                    w[o] = lab[0]
+                    wirings.append(w)
+                    break
         reqs.append((c, l, wirings))
     for (c, l, wirings) in reqs:
         results = {seed: worker(c["stem"], l["stem"], wirings, seed) for seed in (0, 1, 7)}
@@ -117,7 +132,12 @@ def run(ctx):
             from geckolib.const import GeckoConstants as K
             conns = [v for v in values if v != "NA"]
             want = [d for d in l["devices"] if any(v.startswith(d) for v in conns)]
-            want = [d for d in dict.fromkeys(want) if any(("Ud" + d).upper() == u.upper() for u in l["demands"]) and d in K.DEVICES]
+            want = [d for d in dict.fromkeys(want) if any(("Ud" + d).upper() == u.upper() for u in l["demands"]) and d not in KNOWN_UNHANDLED]
+            missing = [d for d in want if d not in K.DEVICES]
+            if missing:
+                ctx.fail("inventory:device_not_handled:%s" % missing[0], "output wiring %s wires %s, which has a user demand item, but the facade has no device for it (not a row of the device table)" % (
+                    {k: v for k, v in w.items() if v != "NA"}, missing), {"cfg": c["stem"], "log": l["stem"], "wiring": w, "missing": missing})
+                continue
             got = [d["key"] for d in a["pumps"] + a["blowers"] + a["lights"]]
             cls = {"PUMP": "pumps", "BLOWER": "blowers", "LIGHT": "lights"}
             exp = {k: [d for d in want if cls[K.DEVICES[d][3]] == k] for k in ("pumps", "blowers", "lights")}
